@@ -335,7 +335,7 @@ class Checker(CommandMixin):
                 return
             last = (i == len(subs) - 1)
             err = failed[0] if (failed and last) else None
-            if not cm.alive and not err:
+            if not cm.alive and not failed:
                 break
             self.command(cm, sub, err)
 
